@@ -727,3 +727,14 @@ package channel
 //@ pred stateDecoded(s *State) = s != nil && s.App != nil && s.Data != nil && validAlloc(s.Allocation) && len(s.Backends) == len(s.Assets) &&
 //@   nonNilAssets(s.Assets) && nonNilBalances(s.Balances) && nonNilLocked(s.Locked)
 //@ pred allocDecoded(a *Allocation) = a != nil && validAlloc(*a) && len(a.Backends) == len(a.Assets) && nonNilAssets(a.Assets) && nonNilBalances(a.Balances) && nonNilLocked(a.Locked)
+
+// wireMapsEq(a, b): same number of entries and every entry of a equals (wire.Address.Equal) the entry of b under the same key.
+//@ pred wireMapsEq(a map[wallet.BackendID]wire.Address, b map[wallet.BackendID]wire.Address) =
+//@   len(a) == len(b) && forall k wallet.BackendID :: has(a, k) ==> wAddrEq(a[k], b[k])
+
+//@ func EqualWireMaps
+//@   requires wireMapNonNil(a)
+//@   ensures result <==> wireMapsEq(a, b)
+//@   loop 1
+//@     modifies
+//@     invariant forall k wallet.BackendID :: visited(k) ==> wAddrEq(a[k], b[k])
